@@ -13,8 +13,11 @@
 #include <asmjit/core.h>
 #include <asmjit/x86.h>
 #include <asmjit/a64.h>
+#include <csetjmp>
+#include <csignal>
 #include <map>
 #include <string>
+#include <sys/time.h>
 #include <vector>
 #include "vh.h"
 
@@ -421,6 +424,8 @@ struct Dumper {
 };
 
 static uint8_t g_buf[256 + 64];
+static sigjmp_buf g_jmp;
+static void on_signal(int sig) { siglongjmp(g_jmp, sig); }
 
 static std::string process(const std::string& line) {
   Builder b;
@@ -481,7 +486,15 @@ static std::string process(const std::string& line) {
         a[k - 1] = (k - 1 < b.arg_types.size() && b.arg_types[k - 1] == TypeId::kUIntPtr) ? uint64_t(uintptr_t(buf)) : v;
       }
       g_calls.clear();
+      // a miscompiled function may loop for ever or divide by zero: 3 s of CPU time, SIGFPE caught
+      struct sigaction sa; memset(&sa, 0, sizeof sa); sa.sa_handler = on_signal; sigemptyset(&sa.sa_mask);
+      sigaction(SIGVTALRM, &sa, nullptr); sigaction(SIGFPE, &sa, nullptr);
+      struct itimerval tv = {{0, 0}, {3, 0}}, off = {{0, 0}, {0, 0}};
+      int sig = sigsetjmp(g_jmp, 1);
+      if (sig != 0) { setitimer(ITIMER_VIRTUAL, &off, nullptr); ex += sig == SIGFPE ? " r=SIGFPE,m=,c=" : " r=TIMEOUT,m=,c="; continue; }
+      setitimer(ITIMER_VIRTUAL, &tv, nullptr);
       uint64_t r = ((uint64_t(*)(uint64_t, uint64_t, uint64_t, uint64_t, uint64_t, uint64_t, uint64_t, uint64_t))fn)(a[0], a[1], a[2], a[3], a[4], a[5], a[6], a[7]);
+      setitimer(ITIMER_VIRTUAL, &off, nullptr);
       if (b.ret_type == TypeId::kInt32 || b.ret_type == TypeId::kUInt32) r &= 0xFFFFFFFFull;
       if (b.ret_type == TypeId::kVoid) r = 0;
       ex += " r=" + vh::to_hex(r) + ",m=" + vh::bytes_to_hex(buf, 256) + ",c=";
